@@ -257,6 +257,34 @@ func runC03(p *Prog, l *Ledger) {
 	locks := p.Locksets()
 	importObligations(p, l, "C02", "O4", func(o *Obligation) bool { return o.Rule == "O5" })
 	strats := c03Discover(p, l)
+	// a partition added to a key-indexed strategy is registered under the key the caller gave: requests are routed by that
+	// key (the lookup function's result), whatever the partition calls itself
+	for _, s := range strats {
+		for _, m := range p.MethodsOf(s.T) {
+			var bad []string
+			n := 0
+			allInstrs(m, func(ins ssa.Instruction) {
+				mu, ok := ins.(*ssa.MapUpdate)
+				if !ok {
+					return
+				}
+				fr, _, isF := fieldPointerLoad(mu.Map)
+				if !isF || !types.Identical(fr.Type, s.T) {
+					return
+				}
+				if mt, ok := mu.Map.Type().Underlying().(*types.Map); !ok || derefNamed(mt.Elem()) == nil || !types.Identical(derefNamed(mt.Elem()), s.Part) {
+					return
+				}
+				n++
+				if _, isP := strip(mu.Key, false).(*ssa.Parameter); !isP {
+					bad = append(bad, fmt.Sprintf("%s: the partition is stored under %s, not under the key parameter of %s", p.At(ins), valueString(strip(mu.Key, false)), m.Name()))
+				}
+			})
+			if n > 0 {
+				l.Check(len(bad) == 0, "O3", p.Key(m)+"/registered-under-key", p.FuncPos(m), "the partition map is updated under the key parameter", "requests mapped to the registered key do not reach the partition (they fall into the unknown bucket, whose share is 1)", bad...)
+			}
+		}
+	}
 	if len(strats) < 2 {
 		l.Infra("expected two partitioned strategies, found %d", len(strats))
 	}
